@@ -220,8 +220,8 @@ theorem update_spec (s : IntervalStorage X Y) (x : X) (y : Y) :
         (if s.storage_x.length < s.size then s.storage_y ++ [y] else s.storage_y.tail ++ [y])
        else s.storage_y) ∧
     (s.update x y).size = s.size ∧ (s.update x y).store_targets = s.store_targets := by
-  simp only [IntervalStorage.update]
-  by_cases hlt : s.storage_x.length < s.size <;> cases h : s.store_targets <;> simp [hlt]
+  by_cases hlt : s.storage_x.length < s.size <;> cases h : s.store_targets <;>
+    simp [IntervalStorage.update, hlt, h]
 
 theorem init_spec (size : ℕ) (st : Bool) :
     (IntervalStorage.init size st : IntervalStorage X Y).storage_x = [] ∧
@@ -296,8 +296,8 @@ theorem update_spec (s : SequenceStorage X Y) (x : X) (y : Y) :
         (if s.storage_x.length < s.size then s.storage_y ++ [y] else s.storage_y.tail ++ [y])
        else s.storage_y) ∧
     (s.update x y).size = s.size ∧ (s.update x y).store_targets = s.store_targets := by
-  simp only [SequenceStorage.update]
-  by_cases hlt : s.storage_x.length < s.size <;> cases h : s.store_targets <;> simp [hlt]
+  by_cases hlt : s.storage_x.length < s.size <;> cases h : s.store_targets <;>
+    simp [SequenceStorage.update, hlt, h]
 
 theorem init_spec (st : Bool) :
     (SequenceStorage.init st : SequenceStorage X Y).storage_x = [] ∧
